@@ -552,6 +552,9 @@ func (p *Path) strEq(a, b NF) *B {
 			if s.atom == 0 {
 				return bFalse
 			}
+			if at := p.atoms[s.atom]; at.re != nil && !at.re.match("") {
+				return bFalse // the atom's language does not contain the empty string
+			}
 		}
 		return p.simp(bLin(p.lenOf(o), EQ0))
 	}
@@ -1447,7 +1450,11 @@ func (p *Path) renderSolve(cons []conRec, lks []linkRec, needAtoms, needVars map
 			continue
 		}
 		if iv.atom != 0 {
-			r.lens[iv.atom] = true
+			if at := p.atoms[iv.atom]; at.re != nil && !at.canon && !at.bound {
+				r.atoms[iv.atom] = true // a regular language restricts the possible lengths
+			} else {
+				r.lens[iv.atom] = true
+			}
 		} else {
 			r.vars[v] = true
 		}
